@@ -25,6 +25,10 @@ def run(ctx: Ctx) -> None:
     for k in range(ctx.pick(6, 60)):
         scs.append(qf.gen_c13_unwritable(rng, 'c13u-%d' % k, ctx.thorough))
     run_traces(ctx, OWN, scs)
+    # the question history on its own: History.tla explored by TLC, its histories performed on a real QuestionHistory and every
+    # answer of suppresses() judged by TLC against HistoryContract.tla (clause C13_HistorySuppresses)
+    from props import historymodel
+    historymodel.run(ctx, OWN)
     # the lookup part of the property: QU-then-QM, omitted questions, known answers, 1 s spacing (Trace_Lookup.tla, C13_* clauses)
     from props import c18, lookupfam as lf
     lscs = [lf.gen_lookup(rng, 'c13l-%d' % k, ctx.thorough) for k in range(ctx.pick(300, 5000))]
@@ -33,5 +37,10 @@ def run(ctx: Ctx) -> None:
 
 def replay(ctx: Ctx, path: str) -> None:
     import json
-    sc = json.load(open(path))['replay']['scenario']
+    rep = json.load(open(path))['replay']
+    if 'question_history' in rep:
+        from props import historymodel
+        historymodel.run(ctx, OWN, [dict(rep['question_history'], id='history-replay')])
+        return
+    sc = rep['scenario']
     run_traces(ctx, OWN, [sc])
